@@ -348,9 +348,21 @@ func cleanDesc(d string) string {
 	return strings.Join(out, "\n")
 }
 
+// descPlain: the description survives the reader's commentDescription unchanged
+func descPlain(d string) bool { return cleanDesc(d) == d }
+
+// descExpressible: the j5s text can say this description (no padded lines)
+func descExpressible(d string) bool {
+	for _, l := range strings.Split(d, "\n") {
+		if strings.TrimSpace(l) != l {
+			return false
+		}
+	}
+	return true
+}
+
 func normProp(env EnumEnv, p Prop) Prop {
-	q := p
-	q.Desc = cleanDesc(p.Desc)
+	q := p // the description stays as declared
 	q.Req = p.Req || (isPrimary(p) && p.PK != PMap)
 	t := p.T
 	switch t.Kind {
@@ -469,6 +481,83 @@ func retype(files []protoreflect.FileDescriptor, path string) (protoreflect.File
 		return nil, err
 	}
 	return reg.FindFileByPath(path)
+}
+
+// reflectStripped: the object reflected from the in-memory descriptors after
+// removing the options of the value fields of its map entries — what the
+// printed text can at most carry (map<K,V> syntax has no place for them)
+func reflectStripped(files []protoreflect.FileDescriptor, path string, msg protoreflect.Name) (r reflected) {
+	defer func() {
+		if p := recover(); p != nil {
+			r.panic = p
+		}
+	}()
+	set := &descriptorpb.FileDescriptorSet{}
+	for _, f := range compile.WithDeps(files) {
+		b, err := proto.Marshal(compile.ToProto(f))
+		if err != nil {
+			r.err = err
+			return
+		}
+		fdp := &descriptorpb.FileDescriptorProto{}
+		if err := proto.Unmarshal(b, fdp); err != nil {
+			r.err = err
+			return
+		}
+		if fdp.GetName() == path {
+			for _, m := range fdp.MessageType {
+				if m.GetName() != string(msg) {
+					continue
+				}
+				// `optional` on a repeated field is not printable either (and protodesc
+				// refuses it); the reader ignores it there: drop it with its synthetic oneof
+				for _, f := range m.Field {
+					if f.GetLabel() == descriptorpb.FieldDescriptorProto_LABEL_REPEATED {
+						f.Proto3Optional = nil
+						f.OneofIndex = nil
+					}
+				}
+				used := map[int32]int32{}
+				var decls []*descriptorpb.OneofDescriptorProto
+				for _, f := range m.Field {
+					if f.OneofIndex != nil {
+						if _, ok := used[*f.OneofIndex]; !ok {
+							used[*f.OneofIndex] = int32(len(decls))
+							decls = append(decls, m.OneofDecl[*f.OneofIndex])
+						}
+						f.OneofIndex = proto.Int32(used[*f.OneofIndex])
+					}
+				}
+				m.OneofDecl = decls
+				for _, n := range m.NestedType {
+					if n.GetOptions().GetMapEntry() {
+						for _, f := range n.Field {
+							if f.GetNumber() == 2 {
+								f.Options = nil
+							}
+						}
+					}
+				}
+			}
+		}
+		set.File = append(set.File, fdp)
+	}
+	reg, err := protodesc.NewFiles(set)
+	if err != nil {
+		r.err = err
+		return
+	}
+	fd, err := reg.FindFileByPath(path)
+	if err != nil {
+		r.err = err
+		return
+	}
+	md := fd.Messages().ByName(msg)
+	if md == nil {
+		r.err = fmt.Errorf("message missing")
+		return
+	}
+	return reflectObject(md)
 }
 
 type reflected struct {
@@ -768,7 +857,7 @@ func runC04(cfg *vh.Config) error {
 				evals++
 				if !proto.Equal(want, mem.enum) {
 					sig := "C04 enum: reflected schema differs from the declared one at " + strings.Join(collapse(diffPaths(want, mem.enum), false), " ")
-					if env.Unspecified != "" && env.Unspecified != "UNSPECIFIED" && env.Unspecified != env.Prefix+"UNSPECIFIED" {
+					if env.Unspecified != "" && env.Unspecified != "UNSPECIFIED" && env.Unspecified != env.Prefix+"UNSPECIFIED" && allUnder(diffPaths(want, mem.enum), []string{".prefix", ".options"}) {
 						sig = "C04 enum whose explicit first option is another name ending in UNSPECIFIED: the reflected prefix and option names are derived from it"
 					}
 					res.Fail(vh.Failure{Case: caseNo, Stream: "enum", Sig: sig,
@@ -799,9 +888,14 @@ func runC04(cfg *vh.Config) error {
 					res.Count("text-view-identical")
 				}
 			}
-			cf.Terms = append(cf.Terms, fmt.Sprintf("C04Enum %s %s %s", env.DeclCoq(), obsEnum, reflEnum))
-			res.Cases = append(res.Cases, vh.CaseRec{Case: caseNo, Stream: "enum", Input: map[string]any{"j5s": env.J5S()}, Impl: map[string]any{"compiled": obsEnum, "reflected": protoString(mem.enum)}})
-			res.Count("enum")
+			if mem.enum == nil && mem.err != nil && mem.panic == nil {
+				// the enum is reached through the object; the object did not reflect (reported below)
+				res.Count("enum-not-reflected")
+			} else {
+				cf.Terms = append(cf.Terms, fmt.Sprintf("C04Enum %s %s %s", env.DeclCoq(), obsEnum, reflEnum))
+				res.Cases = append(res.Cases, vh.CaseRec{Case: caseNo, Stream: "enum", Input: map[string]any{"j5s": env.J5S()}, Impl: map[string]any{"compiled": obsEnum, "reflected": protoString(mem.enum)}})
+				res.Count("enum")
+			}
 		}
 
 		// ---- direct oracle 1: declared vs reflected
@@ -811,13 +905,22 @@ func runC04(cfg *vh.Config) error {
 			res.Fail(vh.Failure{Case: caseNo, Stream: "reflect", Sig: "C04 reflecting the compiled object panics: " + firstWords(fmt.Sprint(mem.panic), 8), Clause: "reflection yields the declared schema", Input: input, Got: fmt.Sprint(mem.panic)})
 		case mem.err != nil:
 			res.Count("reflect-error")
-			res.Fail(vh.Failure{Case: caseNo, Stream: "reflect", Sig: "C04 reflecting the compiled object fails: " + firstWords(mem.err.Error(), 8), Clause: "reflection yields the declared schema", Input: input, Got: mem.err.Error()})
+			sig := "C04 reflecting the compiled object fails: " + firstWords(mem.err.Error(), 8)
+			if strings.Contains(mem.err.Error(), "open_text and format") {
+				for _, p := range props {
+					t := p.P.T
+					if t.Kind == TStr && t.List != nil && t.Str != nil && t.Str.Pat != nil && (*t.Str.Pat == wellKnownPatterns[0] || *t.Str.Pat == wellKnownPatterns[1] || *t.Str.Pat == wellKnownPatterns[2]) {
+						sig = "C04 string whose pattern is one of the reader's well-known patterns (date / number / id62) and which carries list rules: the reader fails (open_text and format do not match), the object does not reflect"
+					}
+				}
+			}
+			res.Fail(vh.Failure{Case: caseNo, Stream: "reflect", Sig: sig, Clause: "reflection yields the declared schema", Input: input, Got: mem.err.Error()})
 		default:
 			res.Count("reflected")
 			if mem.isOneof != (kind == "oneof") {
 				res.Fail(vh.Failure{Case: caseNo, Stream: "reflect", Sig: "C04 root schema kind differs (object vs oneof)", Clause: "for every object, oneof and enum", Input: input, Got: protoString(mem.obj)})
 			}
-			if mem.obj.Name != "Foo" || mem.obj.Description != cleanDesc(objDesc) {
+			if mem.obj.Name != "Foo" || mem.obj.Description != objDesc {
 				res.Fail(vh.Failure{Case: caseNo, Stream: "reflect", Sig: "C04 object name/description differs", Clause: "descriptions", Input: input, Got: protoString(mem.obj)})
 			}
 			if len(reflProps) != len(pl) {
@@ -833,16 +936,30 @@ func runC04(cfg *vh.Config) error {
 					res.Count("property-equal")
 					continue
 				}
-				res.Count("property-differs")
 				raw := diffPaths(want, reflProps[i])
-				paths := collapse(raw, p.P.PK == PMap)
-				sig := fmt.Sprintf("C04 %s: reflected schema differs from the declared one at %s", shapeOf(p.P), strings.Join(paths, " "))
-				if csig, allowed := asymmetryClass(p); csig != "" && allUnder(raw, allowed) {
-					sig = csig
+				if !descExpressible(p.P.Desc) { // a padded description cannot be written in j5s text: not judged
+					var rest []string
+					for _, x := range raw {
+						if x != ".description" {
+							rest = append(rest, x)
+						}
+					}
+					if raw = rest; len(raw) == 0 {
+						res.Count("property-not-judged")
+						continue
+					}
 				}
-				res.Fail(vh.Failure{Case: caseNo, Stream: "reflect", Sig: sig,
-					Clause: "reflection yields the declared schema", Input: map[string]any{"j5s": p.P.J5S(env), "object": src},
-					Got: protoString(reflProps[i]), Want: protoString(want)})
+				res.Count("property-differs")
+				paths := collapse(raw, p.P.PK == PMap)
+				sigs := explain(p, raw)
+				if sigs == nil {
+					sigs = []string{fmt.Sprintf("C04 %s: reflected schema differs from the declared one at %s", shapeOf(p.P), strings.Join(paths, " "))}
+				}
+				for _, sig := range sigs {
+					res.Fail(vh.Failure{Case: caseNo, Stream: "reflect", Sig: sig,
+						Clause: "reflection yields the declared schema", Input: map[string]any{"j5s": p.P.J5S(env), "object": src},
+						Got: protoString(reflProps[i]), Want: protoString(want)})
+				}
 			}
 		}
 		// ---- direct oracle 2: the printed text reflects to the same schema
@@ -854,20 +971,33 @@ func runC04(cfg *vh.Config) error {
 		case mem.obj != nil:
 			res.Count("text-reflected")
 			if !proto.Equal(mem.obj, txt.obj) {
-				var shapes []string
+				// one failure per differing property; the signature names where the two
+				// reflected schemas differ (collapsed to the rule group)
+				reported := map[string]bool{}
+				stripped := reflectStripped(c.files, string(c.file.Path()), "Foo")
 				for i, p := range props {
-					if i < len(mem.obj.Properties) && i < len(txt.obj.Properties) && !proto.Equal(mem.obj.Properties[i], txt.obj.Properties[i]) {
-						what := "plain"
-						if p.P.PK == PMap {
-							what = "map"
-						}
-						shapes = append(shapes, what)
+					if i >= len(mem.obj.Properties) || i >= len(txt.obj.Properties) || proto.Equal(mem.obj.Properties[i], txt.obj.Properties[i]) {
+						continue
+					}
+					what := "plain"
+					if p.P.PK == PMap {
+						what = "map"
+					}
+					paths := collapse(diffPaths(mem.obj.Properties[i], txt.obj.Properties[i]), false)
+					sig := fmt.Sprintf("C04 text: %s property reflected from the printed .proto text differs from the in-memory one at %s", what, strings.Join(paths, " "))
+					if p.P.PK == PMap && stripped.obj != nil && i < len(stripped.obj.Properties) && proto.Equal(stripped.obj.Properties[i], txt.obj.Properties[i]) {
+						sig = "C04 text: options on the value field of a map entry cannot be written in map<,> syntax; the printed text reflects exactly as the descriptor without them does"
+					}
+					if !reported[sig] {
+						reported[sig] = true
+						res.Fail(vh.Failure{Case: caseNo, Stream: "text", Sig: sig, Clause: "the same schema is obtained from the generated .proto text",
+							Input: map[string]any{"j5s": p.P.J5S(env), "proto": text}, Got: protoString(txt.obj.Properties[i]), Want: protoString(mem.obj.Properties[i])})
 					}
 				}
-				sort.Strings(shapes)
-				paths := diffPaths(mem.obj, txt.obj)
-				_ = paths
-				res.Fail(vh.Failure{Case: caseNo, Stream: "text", Sig: "C04 schema reflected from the printed .proto text differs from the in-memory one for properties: " + strings.Join(dedup(shapes), ","), Clause: "the same schema is obtained from the generated .proto text", Input: map[string]any{"j5s": src, "proto": text}, Got: protoString(txt.obj), Want: protoString(mem.obj)})
+				if len(reported) == 0 {
+					res.Fail(vh.Failure{Case: caseNo, Stream: "text", Sig: "C04 text: object reflected from the printed .proto text differs from the in-memory one outside its properties", Clause: "the same schema is obtained from the generated .proto text",
+						Input: map[string]any{"j5s": src, "proto": text}, Got: protoString(txt.obj), Want: protoString(mem.obj)})
+				}
 			}
 		}
 		caseNo++
@@ -908,7 +1038,12 @@ func dedup(xs []string) []string {
 // declaration; the class signature is used only when every differing path lies
 // where the asymmetry explains it, so that any other difference on the same
 // property keeps its own (path-based) signature.
-func asymmetryClass(p genDecl) (string, []string) {
+type asymmetry struct {
+	sig     string
+	allowed []string
+}
+
+func asymmetryClasses(p genDecl) []asymmetry {
 	item := ".schema"
 	switch p.P.PK {
 	case PArray:
@@ -917,27 +1052,72 @@ func asymmetryClass(p genDecl) (string, []string) {
 		item = ".schema.map.itemSchema"
 	}
 	t := p.P.T
-	switch {
-	case p.P.PK == PMap && t.List != nil:
-		return "C04 map: list rules of the item schema are written on the entry's value field and not read back", []string{item}
-	case t.Kind == TStr && t.SFormat != nil:
-		return "C04 string format: StringField.format is not written to the descriptor and does not read back", []string{item + ".string.format"}
-	case t.Kind == TAny && (t.AnyOD || len(t.AnyT) > 0) && p.P.PK != PSingle:
-		return "C04 array of any with onlyDefined / types: (j5.ext.v1.field).any is replaced by the array annotation", []string{item + ".any.onlyDefined", item + ".any.types"}
-	case t.Kind == TKey && (t.KF == KCustom || t.KF == KInformal) && p.P.PK != PSingle:
-		return "C04 array of key:custom / key:informal: the format lives in (j5.ext.v1.field).key, which the array annotation replaces", []string{item + ".key", item + ".string"}
-	case t.Kind == TKey && t.KF == KCustom && t.List != nil:
-		return "C04 key:custom with list rules: written as a unique_string foreign key, reads back as key:informal", []string{item + ".key.format"}
-	case t.Kind == TKey && t.KF == KNone && t.List != nil:
-		return "C04 key without format but with list rules: reads back as key:informal", []string{item + ".key.format"}
-	case t.Kind == TKey && t.KF == KNone && p.P.PK != PSingle && t.Entity == nil:
-		return "C04 array of key without format: (j5.ext.v1.field) is the array's, the items read back as string", []string{item + ".key", item + ".string"}
-	case (t.Kind == TDate || t.Kind == TDecimal) && t.Txt != nil && p.P.PK != PSingle:
-		return "C04 array of date/decimal with rules: the rules live in (j5.ext.v1.field), which the array annotation overwrites", []string{item + ".date.rules", item + ".decimal.rules"}
-	case t.Kind == TObject && t.Flatten && p.P.PK != PSingle:
-		return "C04 array of flattened object: flatten lives in (j5.ext.v1.field), which the array annotation overwrites", []string{item + ".object.flatten"}
+	if p.P.PK == PMap {
+		t.List = nil // list rules of map values do not reach the reader (own class below)
 	}
-	return "", nil
+	var out []asymmetry
+	add := func(sig string, allowed ...string) { out = append(out, asymmetry{sig, allowed}) }
+	// independent of the item type
+	if !descPlain(p.P.Desc) && descExpressible(p.P.Desc) {
+		add("C04 description with a line starting with '#': the reader's commentDescription drops the line", ".description")
+	}
+	if p.P.PK != PSingle && p.P.Opt {
+		add("C04 array or map with optional = true: explicitlyOptional is read back for singular properties only", ".explicitlyOptional")
+	}
+	// by item type (at most one)
+	wk := func(i int) bool {
+		return t.Kind == TStr && t.SFormat == nil && t.Str != nil && t.Str.Pat != nil && *t.Str.Pat == wellKnownPatterns[i]
+	}
+	if p.P.PK == PMap && p.P.T.List != nil {
+		add("C04 map: list rules of the item schema are written on the entry's value field and not read back", item+"."+itemTypeName[t.Kind]+".listRules")
+	}
+	switch {
+	case t.Kind == TStr && t.SFormat != nil:
+		add("C04 string format: StringField.format is not written to the descriptor and does not read back", item+".string.format")
+	case wk(2):
+		add("C04 string whose pattern is the published id62 pattern: reads back as key:id62", item+".string", item+".key")
+	case wk(0) || wk(1):
+		add("C04 string whose pattern is the reader's well-known date / number pattern: reads back as format date / number without the pattern", item+".string.format", item+".string.rules.pattern")
+	case t.Kind == TAny && (t.AnyOD || len(t.AnyT) > 0) && p.P.PK != PSingle:
+		add("C04 array of any with onlyDefined / types: (j5.ext.v1.field).any is replaced by the array annotation", item+".any.onlyDefined", item+".any.types")
+	case t.Kind == TKey && (t.KF == KCustom || t.KF == KInformal) && p.P.PK != PSingle:
+		add("C04 array of key:custom / key:informal: the format lives in (j5.ext.v1.field).key, which the array annotation replaces", item+".key", item+".string")
+	case t.Kind == TKey && t.KF == KCustom && t.List != nil:
+		add("C04 key:custom with list rules: written as a unique_string foreign key, reads back as key:informal", item+".key.format")
+	case t.Kind == TKey && t.KF == KNone && t.List != nil:
+		add("C04 key without format but with list rules: reads back as key:informal", item+".key.format")
+	case t.Kind == TKey && t.KF == KNone && p.P.PK != PSingle && t.Entity == nil:
+		add("C04 array of key without format: (j5.ext.v1.field) is the array's, the items read back as string", item+".key", item+".string")
+	case (t.Kind == TDate || t.Kind == TDecimal) && t.Txt != nil && p.P.PK != PSingle:
+		add("C04 array of date/decimal with rules: the rules live in (j5.ext.v1.field), which the array annotation overwrites", item+".date.rules", item+".decimal.rules")
+	case t.Kind == TObject && t.Flatten && p.P.PK != PSingle:
+		add("C04 array of flattened object: flatten lives in (j5.ext.v1.field), which the array annotation overwrites", item+".object.flatten")
+	}
+	return out
+}
+
+// explain: the known asymmetries that together account for every differing
+// path (each used one accounts for at least one path); nil when some path is
+// left unexplained — the difference then keeps its own path-based signature.
+func explain(p genDecl, raw []string) []string {
+	var sigs []string
+	var allowed []string
+	for _, a := range asymmetryClasses(p) {
+		used := false
+		for _, path := range raw {
+			if allUnder([]string{path}, a.allowed) {
+				used = true
+			}
+		}
+		if used {
+			sigs = append(sigs, a.sig)
+			allowed = append(allowed, a.allowed...)
+		}
+	}
+	if len(sigs) == 0 || !allUnder(raw, allowed) {
+		return nil
+	}
+	return sigs
 }
 
 func allUnder(paths, prefixes []string) bool {
@@ -966,14 +1146,14 @@ func optionInfo(e *schema_j5pb.Enum) bool {
 
 // expectedEnum: the schema_j5pb.Enum a declaration denotes (mirrors norm_enum)
 func expectedEnum(env EnumEnv) *schema_j5pb.Enum {
-	out := &schema_j5pb.Enum{Name: env.Name, Description: cleanDesc(env.Desc), Prefix: env.Prefix}
-	out.Options = append(out.Options, &schema_j5pb.Enum_Option{Name: "UNSPECIFIED", Number: 0, Description: cleanDesc(env.UnspecDesc)})
+	out := &schema_j5pb.Enum{Name: env.Name, Description: env.Desc, Prefix: env.Prefix}
+	out.Options = append(out.Options, &schema_j5pb.Enum_Option{Name: "UNSPECIFIED", Number: 0, Description: env.UnspecDesc})
 	for i, o := range env.Options {
 		d := ""
 		if i < len(env.OptDescs) {
 			d = env.OptDescs[i]
 		}
-		out.Options = append(out.Options, &schema_j5pb.Enum_Option{Name: strings.TrimPrefix(o, env.Prefix), Number: int32(i + 1), Description: cleanDesc(d)})
+		out.Options = append(out.Options, &schema_j5pb.Enum_Option{Name: strings.TrimPrefix(o, env.Prefix), Number: int32(i + 1), Description: d})
 	}
 	return out
 }
